@@ -116,7 +116,7 @@ func (e *Engine) Report(rep *Report, props []string, verif string, opts runOpts,
 			exit = 2
 		default: // failed, undecided
 			if k := isKnown(g); k != nil {
-				fmt.Printf("KNOWN-FINDING: property=%s %s\n", k.Property, k.Rest)
+				fmt.Printf("KNOWN-FINDING: %s\n", k.Rest)
 				knownPrinted = append(knownPrinted, g.Name)
 				ev.Verdict = "known-finding"
 				break
